@@ -80,12 +80,43 @@ def make_extra(fileid, classes, module_functions=True):
 PARSER_CLASSES = None        # every class of parser.py (Node, the generated node classes' factory, Parser, ParserError)
 LEXER_CLASSES = None         # every class of lexer.py
 LUA_CLASSES = {'BaseASTWalker', 'BaseLuaWriter', 'LuaEchoWriter', 'LuaASTEchoWriter', 'LuaFormatterWriter', 'Lua'}
+# the rest of lua.py: the token-stream writers (luamin, the token-level formatter, --pure-lua), the name factory and
+# the module functions (P8SCII conversion, title / byline lookup)
+LUAMIN_CLASSES = {'LuaMinifyTokenWriter', 'LuaMinifyWriter', 'MinifyNameFactory', 'LuaFormatterTokenWriter',
+                  'PureLuaWriter', 'LuaTokenEchoWriter'}
 
-MODULES = [
-    ('pico8.lua.parser', 'pico8/lua/parser.py', {'file': 'T_pins_parser', 'kernels': [],
-                                                  'extra': make_extra('parser', PARSER_CLASSES)}),
-    ('pico8.lua.lexer', 'pico8/lua/lexer.py', {'file': 'T_pins_lexer', 'kernels': [],
-                                                'extra': make_extra('lexer', LEXER_CLASSES)}),
-    ('pico8.lua.lua', 'pico8/lua/lua.py', {'file': 'T_pins_luawriter', 'kernels': [],
-                                            'extra': make_extra('luawriter', LUA_CLASSES, module_functions=False)}),
+# (file id, module, source, classes (None = all), pin module functions?, lemma file, what the functions are modelled by)
+PINS = [
+    ('parser', 'pico8.lua.parser', 'pico8/lua/parser.py', PARSER_CLASSES, True, 'ParserPins',
+     'the parser (Model/Parser.v)'),
+    ('lexer', 'pico8.lua.lexer', 'pico8/lua/lexer.py', LEXER_CLASSES, True, 'LexerPins',
+     'the lexer (Model/Lexer.v)'),
+    ('luawriter', 'pico8.lua.lua', 'pico8/lua/lua.py', LUA_CLASSES, False, 'AstWriterPins',
+     "the Lua container and the AST writers' walk (Model/AstWriter.v, Model/EchoWriter.v)"),
+    # added 2026-10-02 (round s8): the modules whose control flow is modelled by hand outside the Lua text stack
+    ('luamin', 'pico8.lua.lua', 'pico8/lua/lua.py', LUAMIN_CLASSES, True, 'LuaMinPins',
+     'the token-stream writers, the name factory and the module functions of lua.py (Model/Minifier.v, Model/Names.v, Model/P8scii.v, Model/Header.v)'),
+    ('build', 'pico8.build.build', 'pico8/build/build.py', None, True, 'BuildPins',
+     'p8tool build: region selection, require() evaluation, package embedding (Model/Build*.v, Model/Req*.v, Model/LoadPath.v)'),
+    ('p8', 'pico8.game.formatter.p8', 'pico8/game/formatter/p8.py', None, True, 'P8Pins',
+     'the .p8 reader / writer and #include (Model/P8File.v, Model/Include.v)'),
+    ('p8png', 'pico8.game.formatter.p8png', 'pico8/game/formatter/p8png.py', None, True, 'P8PngPins',
+     'the .p8.png reader / writer (Model/P8Png.v)'),
+    ('compress', 'pico8.game.compress', 'pico8/game/compress.py', None, True, 'CompressPins',
+     'code compression (Model/Compress.v)'),
+    ('file', 'pico8.game.file', 'pico8/game/file.py', None, True, 'FilePins',
+     'file.from_file / to_file: the write protocol (Model/WriteProtocol.v)'),
+    ('game', 'pico8.game.game', 'pico8/game/game.py', None, True, 'GamePins',
+     'the cart object: raw memory writes, empty carts (Model/CartMem.v)'),
+    ('gfx', 'pico8.gfx.gfx', 'pico8/gfx/gfx.py', None, True, 'GfxPins', 'the sprite sheet section (Model/Sections.v, Model/Accessors.v)'),
+    ('map', 'pico8.map.map', 'pico8/map/map.py', None, True, 'MapPins', 'the map section (Model/Sections.v, Model/Accessors.v)'),
+    ('gff', 'pico8.gff.gff', 'pico8/gff/gff.py', None, True, 'GffPins', 'the sprite flags section'),
+    ('sfx', 'pico8.sfx.sfx', 'pico8/sfx/sfx.py', None, True, 'SfxPins', 'the sound effects section'),
+    ('music', 'pico8.music.music', 'pico8/music/music.py', None, True, 'MusicPins', 'the music section'),
+    ('util', 'pico8.util', 'pico8/util.py', None, True, 'UtilPins', 'BaseSection (from_bytes / to_bytes / empty) and the message helpers'),
+    ('fmtbase', 'pico8.game.formatter.base', 'pico8/game/formatter/base.py', None, True, 'FmtBasePins', 'the formatter base class'),
+    ('tool', 'pico8.tool', 'pico8/tool.py', None, True, 'ToolPins', 'the command line wiring'),
 ]
+
+MODULES = [(mod, rel, {'file': 'T_pins_' + fid, 'kernels': [], 'extra': make_extra(fid, classes, mf)})
+           for fid, mod, rel, classes, mf, _lemmas, _what in PINS]
